@@ -33,7 +33,7 @@ Definition cached (st : static) (o : op) (x : res) (s : state) : Prop :=
 
 Lemma res_eqb_refl x : res_eqb x x = true.
 Proof.
-  destruct x as [r|m|f|c|e| | |]; simpl; try reflexivity;
+  destruct x as [r|m|f|c|e| | | |]; simpl; try reflexivity;
     try (destruct r; simpl; auto using Nat.eqb_refl);
     try (destruct m; simpl; auto using Nat.eqb_refl);
     try (destruct f; simpl; auto using Nat.eqb_refl);
@@ -62,7 +62,7 @@ Lemma cached_preserved st o x s o' s' x' same' :
   cached st o x s' /\ (same_stage o o' = true -> x' = x /\ same' = true).
 Proof.
   intros Hc H Hnr. unfold step in H.
-  destruct o, x as [r|m|f|c|e| | |]; simpl in Hc; try contradiction;
+  destruct o, x as [r|m|f|c|e| | | |]; simpl in Hc; try contradiction;
     try (destruct r; try contradiction); try (destruct m; try contradiction); try (destruct f; try contradiction);
     try (destruct c as [|[|c']]; try contradiction).
   all: destruct o'; simpl in Hnr; try discriminate;
